@@ -38,6 +38,11 @@ Drop list (nothing else is changed; the report counts every edit):
   D9 ghost `proof { assert(..) }` hints from contracts/<fn>.hints are appended at the
      end of a unit-returning body (ghost code is erased from the executable; the
      count is reported)
+  D10 loop invariants from contracts/<fn>.loop<k>.inv are spliced between the k-th
+     `for` header of a body and its opening brace (the header's ghost iterator is
+     named: `for x in e` => `for x in it: e`), and ghost declarations from
+     contracts/<fn>.loop<k>.pre (`let ghost n0 = ..;`) on the line before the
+     header (specification text; erased)
   D6 a function's return type `-> T` is written `-> (r: T)` (Verus' syntax for
      naming the result in `ensures`); the body is untouched
 exit 0 ok, exit 2 lost anchor / body uses something outside the subset.
@@ -205,6 +210,9 @@ def main():
         t, _ = take(lib, lib_c, r"^pub enum TypeSpaceImpl\b", "TypeSpaceImpl", rep, lib_path)
         outside.append(t)
         names_external.append("TypeSpaceImpl")
+        t, _ = take(lib, lib_c, r"^pub\(crate\) enum Name\b", "Name", rep, lib_path)
+        outside.append(t)
+        names_external.append("Name")
         # --- type_entry.rs data types
         for kind, name, cmp_impls in DATA_TYPES:
             t, _ = take(te, te_c, r"^pub(?:\(crate\))? %s %s\b" % (kind, name), name, rep, te_path)
@@ -254,6 +262,35 @@ def main():
         fns["convert_ref_type_tail"] = ("    fn convert_ref_type_tail(&mut self, type_entry: TypeEntry, type_id: TypeId) {\n"
                                         + tail_after + "\n    }")
 
+        # whole function: the public entry point add_type_with_name
+        t, _ = take(lib, lib_c, r"^    pub fn add_type_with_name\b", "TypeSpace::add_type_with_name", rep, lib_path, attrs=False)
+        fns["add_type_with_name"] = t
+        for other in OTHER_FIELDS:
+            if re.search(r"\bself\s*\.\s*%s\b" % other, strip_strings_and_comments(t)):
+                raise Lost("add_type_with_name mentions field `%s` outside the allocator subset" % other)
+        # D8: the tail of add_ref_types_impl -- `self.break_cycles(..)` up to the final `Ok(())`
+        sp = find_item(lib, r"^    fn add_ref_types_impl\b", lib_c)
+        if not sp:
+            raise Lost("fn add_ref_types_impl")
+        body = lib[sp[0]:sp[1]]
+        m1 = re.search(r"^        self\.break_cycles\(", body, re.M)
+        m2 = None
+        for m2 in re.finditer(r"^        Ok\(\(\)\)\n", body, re.M):
+            pass
+        if not m1 or not m2 or m2.start() < m1.start():
+            raise Lost("add_ref_types_impl tail slice (break_cycles call .. Ok(()))")
+        # include the comment lines directly above the call in the slice text (dropped by D1)
+        tail2 = body[m1.start():m2.end()]
+        a0 = sp[0] + m1.start()
+        l1 = lib.count("\n", 0, a0) + 1
+        l2 = l1 + tail2.count("\n") - 1
+        tail2_after = drop_list(tail2.rstrip("\n"), rep)
+        rep.add("TypeSpace::add_ref_types_impl [tail slice]", lib_path, tail2, tail2_after, l1, l2)
+        if re.search(r"\bself\s*\.\s*(%s)\b" % "|".join(OTHER_FIELDS), strip_strings_and_comments(tail2_after)):
+            raise Lost("add_ref_types_impl tail slice mentions a field outside the allocator subset")
+        fns["add_ref_types_tail"] = ("    fn add_ref_types_tail(&mut self, base_id: u64, def_len: u64) -> Result<()> {\n"
+                                     + tail2_after + "\n    }")
+
         def spec(name):
             p = os.path.join(HERE, "contracts", name + ".spec")
             return open(p).read().rstrip() + "\n" if os.path.exists(p) else ""
@@ -272,6 +309,29 @@ def main():
                 k = body.rstrip().rfind("}")
                 body = body[:k] + "    proof {\n" + "".join("            " + l + "\n" for l in hints.split("\n")) + "        }\n    }"
                 ghost_lines[0] += hints.count("\n") + 1
+            # D10: loop invariants from contracts/<fn>.loop<k>.inv are spliced between the k-th
+            # `for` header and its opening brace (Verus' `for x in e invariant .. { }`)
+            k = 0
+            out_lines = []
+            for line in body.split("\n"):
+                mfor = re.match(r"^(\s*)for .* \{$", line)
+                if mfor:
+                    k += 1
+                    ip = os.path.join(HERE, "contracts", "%s.loop%d.inv" % (key, k))
+                    pp = os.path.join(HERE, "contracts", "%s.loop%d.pre" % (key, k))
+                    if os.path.exists(pp):
+                        pre = open(pp).read().rstrip()
+                        out_lines += [mfor.group(1) + l for l in pre.split("\n")]
+                        ghost_lines[0] += pre.count("\n") + 1
+                    if os.path.exists(ip):
+                        inv = open(ip).read().rstrip()
+                        # name the loop's ghost iterator so the invariant can speak about its end:
+                        # `for x in e {`  =>  `for x in it: e`
+                        line = re.sub(r"^(\s*for .*? in )", r"\1it: ", line, count=1)
+                        line = line[:-1].rstrip() + "\n" + "".join(mfor.group(1) + "    " + l + "\n" for l in inv.split("\n")) + mfor.group(1) + "{"
+                        ghost_lines[0] += inv.count("\n") + 1
+                out_lines.append(line)
+            body = "\n".join(out_lines)
             return sig + "\n" + "".join("        " + l + "\n" if l.strip() else "\n" for l in spec(key).split("\n")) + "    " + body.lstrip()
 
         prelude = open(os.path.join(HERE, "prelude.rs")).read()
@@ -294,7 +354,7 @@ def main():
         g.append("impl TypeEntry {\n" + fn_with_contract("name", fns["name"]) + "\n}\n\n")
         g.append("impl From<TypeEntryDetails> for TypeEntry {\n" + fn_with_contract("from_details", fns["from_details"]) + "\n}\n\n")
         g.append("impl TypeSpace {\n")
-        for f in FUNCS + ["convert_ref_type_tail"]:
+        for f in FUNCS + ["convert_ref_type_tail", "add_type_with_name", "add_ref_types_tail"]:
             g.append(fn_with_contract(f, fns[f]) + "\n\n")
         g.append("}\n")
         g.append("\n} // verus!\n\nfn main() {}\n")
